@@ -12,6 +12,9 @@ modes
   exit1-sat                              prints `sat` + model but exits with status 1
   crash                                  exits with status 139 and no output
   sleep:<seconds>                        sleeps (to be killed by the time limit), then prints unsat
+  match:<file>                           <file> is JSON {"consts": [hex strings], "modes": [mode per constant], "default": mode}: the mode of the highest-numbered
+                                         constant occurring in the query text is used
+  delay:<seconds>:<mode>                 sleeps, then behaves as <mode> (to order the completion of concurrent queries)
   script:<file>                          <file> is JSON {"<path id>": mode, "default": mode}; path id = basename of the query up to the first dot
   core:<file>                            like script, for --cache-solver: JSON {"unsat_sets": [[assertion-id patterns]...]} (see props/c16_cache.py)
 """
@@ -65,6 +68,20 @@ def main():
     mode, path = sys.argv[1], sys.argv[-1]
     with open(path) as f:
         text = f.read()
+    if mode.startswith("match:"):
+        # {"consts": [hex...], "modes": [...]}: the reply is chosen by the highest-numbered constant that occurs in the query
+        with open(mode.split(":", 1)[1]) as f:
+            table = json.load(f)
+        pick = table.get("default", "unsat")
+        low = text.lower()
+        for cst, m in zip(table["consts"], table["modes"]):
+            # z3 prints bit-vector constants as (_ bvN W) or #x...
+            if cst.lower() in low or f"(_ bv{int(cst, 16)} " in low:
+                pick = m
+        mode = pick
+    if mode.startswith("delay:"):
+        _, secs, mode = mode.split(":", 2)
+        time.sleep(float(secs))
     if mode.startswith("script:"):
         with open(mode.split(":", 1)[1]) as f:
             table = json.load(f)
